@@ -16,8 +16,7 @@ def showSeal : Option Bytes → String
   | some r => toHex r
   | none => "panic"
 
-def handle (line : String) : String :=
-  let o := parseOp line
+def handleOp (o : Op) : String :=
   let out := (o.hex? "out").getD []
   match o.cmd with
   | "sbseal" =>
@@ -77,5 +76,13 @@ def handle (line : String) : String :=
     | some key, some msg, some d => if key.length != 32 then "bad-op" else (if authVerify d msg key then "v1" else "v0")
     | _, _, _ => "bad-op"
   | _ => "bad-op"
+
+/-- an optional `expect=<published output, spaces written as _>` field turns an op into a known-answer test -/
+def handle (line : String) : String :=
+  let o := parseOp line
+  let r := handleOp o
+  match o.get? "expect" with
+  | none => r
+  | some e => if r.replace " " "_" == e then r else s!"kat-mismatch {r}"
 
 end XC.C10
